@@ -13,7 +13,14 @@ implementation's own get_section_by_path); path text arithmetic is C14's busines
 The snapshots carry every attribute of Sections and Properties but the ids; the oracle works on
 these, the model on their projection `narrow` (the attributes Model/Merge.lean has). Variants of
 the three model operations on the implementation side (`finalize:sec`, `clean:sec`,
-`reload:<format>[-file]`) are mapped to finalize / clean / reload for the model.
+`reload:<format>[-file]`, `copy:clone*`, `noop:refused`) are mapped to finalize / clean / reload
+for the model; an `edit:*` op (the harness changes the cleaned document between two cycles) starts
+a new segment: the model is asked again from the snapshot after the edit.
+
+Reading of the quantifier (see design.d/C12.md, round 3): "(no chained or nested links)" is taken
+to exclude a linking Section below another linking Section as well (the weaker reading; it is
+what Link.inRegime has formalised since the design round), so linking Sections stay pairwise
+disjoint in every generated document.
 """
 import atexit
 import copy
@@ -70,6 +77,20 @@ OWN_NONASCII = ["öwn", "自分"]                          # own children of lin
 CARDS = [[1, 4], [None, 3], [2, None], [0, 12], [1, 10]]             # never (n, n): C01/C02/C09's business
 RELOADS = ["reload", "reload:xml-file", "reload:json", "reload:json-file", "reload:yaml",
            "reload:yaml-file"]
+TIGHT = [[None, 1], [0, 2], [None, 2]]   # cardinalities of a linking Section that the copies exceed
+# further entry points / call patterns with the effect of Document.finalize() / Document.clean()
+# inside the quantifier (linking Sections are disjoint, so the order does not matter; resolving or
+# cleaning one Section a second time is what `finalize finalize` / `clean clean` do to all of them)
+FIN_VARIANTS = ["finalize:sec", "finalize:sec-rev", "finalize:sec1+doc"]
+CLEAN_VARIANTS = ["clean:sec", "clean:sec-rev", "clean:sec1+doc", "clean:top"]
+COPIES = ["copy:clone", "copy:clone-keepid"]
+# what the model does for an op kind (`edit` is a segment boundary, see model_requests)
+MODEL_KIND = {"finalize": "finalize", "clean": "clean", "reload": "reload", "copy": "reload",
+              "noop": "reload"}
+
+
+def kind_of(op):
+    return op.split(":")[0]
 
 
 def new_uuid(rng):
@@ -211,7 +232,67 @@ def gen_ops(rng):
     if rng.random() < 0.12:
         ops = [{"finalize": "finalize:sec", "clean": "clean:sec"}.get(o, o) if rng.random() < 0.7 else o
                for o in ops]
+    # round 3: the other call patterns (reverse order, one linking Section first and then the
+    # Document, the top-level Sections one by one)
+    if rng.random() < 0.10:
+        ops = [rng.choice(FIN_VARIANTS) if o == "finalize" and rng.random() < 0.7 else
+               rng.choice(CLEAN_VARIANTS) if o == "clean" and rng.random() < 0.7 else o for o in ops]
+    # a clone of the cleaned Document (new ids / kept ids) instead of, or besides, a save/load
+    if rng.random() < 0.08:
+        if any(o.startswith("reload") for o in ops) and rng.random() < 0.6:
+            ops = [rng.choice(COPIES) if o.startswith("reload") and rng.random() < 0.7 else o for o in ops]
+        else:
+            spots = [i + 1 for i, o in enumerate(ops) if kind_of(o) == "clean"] + [0]
+            ops.insert(rng.choice(spots), rng.choice(COPIES))
+    # calls the library refuses (link and include on one Section, a path that does not resolve),
+    # in any state: they must leave nothing behind that the following steps stumble over
+    if rng.random() < 0.08:
+        ops.insert(rng.randrange(len(ops) + 1), "noop:refused")
     return ops
+
+
+def gen_edits(rng, ops, doc, linkers, link_targets, clashing):
+    """Edits of the *cleaned* document between two cycles (the same objects go through another
+    cycle after a change): children added to / removed from / changed in the target of an
+    in-document link, own children added to / removed from a linking Section. Only where the
+    document is clean (at the start, after a clean, after a save/load or clone) and only edits that
+    keep the document inside the quantifier (new children carry no links; no Section is removed
+    that is, or contains, the target of a link). `link_targets`: linker index -> target path;
+    `clashing`: indexes of the linking Sections that share child names with their target. Those get
+    no new own child: it would stand behind the same-name children, a re-resolution replaces an own
+    child equal to the target's by a copy at the end, and the oracle's "own children of other
+    names stay in place" is stated by position (the property does not speak about positions; the
+    clause is left as it is and the shape is not generated)."""
+    spots = [0] + [i + 1 for i, o in enumerate(ops) if kind_of(o) in ("clean", "reload", "copy")]
+    useful = [x for x in spots if x < len(ops)] or spots      # followed by another step if possible
+    all_targets = [tuple(t) for t in link_targets.values()]
+    picked = []
+    removed_sec = False
+    for _ in range(rng.choice([1, 1, 2])):
+        k = rng.randrange(len(linkers))
+        kinds = ["own-"] if k in clashing else ["own+", "own+", "own-"]
+        tp = link_targets.get(k)
+        if tp is not None:
+            kinds += ["t+sec", "t+sec", "t+prop", "t~", "t~"]
+            tnode = node(doc, tp)
+            # nothing is taken out of a target while some linking Section has own children named
+            # like a target's: an own Section could end up named like a Property of the target
+            # only (whether that is "sharing a child name" is ambiguous, see design.d/C12.md)
+            if not clashing:
+                kinds.append("t-prop")
+            if tnode["secs"] and not removed_sec and not clashing:
+                child = tuple(tp) + (tnode["secs"][0]["name"],)
+                if not any(t[:len(child)] == child for t in all_targets):
+                    kinds.append("t-sec")
+        what = rng.choice(kinds)
+        removed_sec = removed_sec or what == "t-sec"
+        picked.append((rng.choice(useful), "edit:%s:%d" % (what, k)))
+    out = []
+    for i in range(len(ops) + 1):
+        out += [e for pos, e in picked if pos == i]
+        if i < len(ops):
+            out.append(ops[i])
+    return out
 
 
 def gen_case(rng, tier):
@@ -221,7 +302,9 @@ def gen_case(rng, tier):
     rich_f = {"unc": False} if rich is not None else None     # include files go through XML
     p_un = 0.3 if rng.random() < 0.4 else 0.0
     p_na = 0.25 if rng.random() < 0.15 else 0.0
-    doc = [plain_sec(rng, n, rng.choice([1, 2, 2, 3]), rich=rich) for n in rng.sample(m.NAMES, rng.choice([2, 3, 4]))]
+    # top-level trees of depth 1-3, now and then 4 (linking Sections and targets four levels down)
+    doc = [plain_sec(rng, n, 4 if rng.random() < 0.04 else rng.choice([1, 2, 2, 3]), rich=rich)
+           for n in rng.sample(m.NAMES, rng.choice([2, 3, 4]))]
     files = {}
     for key in rng.sample(["f1", "f2"], rng.choice([0, 1, 1, 2])):
         files[key] = [plain_sec(rng, n, rng.choice([1, 2]), rich=rich_f) for n in rng.sample(m.NAMES, rng.choice([1, 2]))]
@@ -235,7 +318,13 @@ def gen_case(rng, tier):
     targets = []
     ftargets = []
     want = rng.choice([1, 1, 2, 3])
+    if rng.random() < 0.06:
+        want = rng.choice([4, 5, 6])          # many linking Sections (as far as disjoint places go)
     any_clash = False
+    link_targets = {}                         # linker index -> path of its in-document target
+    clashing = set()                          # indexes of linking Sections sharing names with the target
+    # Linking Sections stay pairwise disjoint (`diverge` below): a linking Section among the own
+    # children of another one is read as a "nested link", outside the quantifier (module docstring).
     for lp in paths:
         if len(linkers) >= want:
             break
@@ -269,7 +358,10 @@ def gen_case(rng, tier):
         # own children of the linking Section: other names, or (clash variant) some shared names
         clash = rng.random() < 0.3
         any_clash = any_clash or clash
-        l["secs"] = [plain_sec(rng, n, 1, rich=rich) for n in rng.sample(OWN_NAMES, rng.choice([0, 1, 2]))]
+        if clash:
+            clashing.add(len(linkers))
+        l["secs"] = [plain_sec(rng, n, rng.choice([1, 1, 1, 2, 3]), rich=rich)
+                     for n in rng.sample(OWN_NAMES, rng.choice([0, 1, 2]))]
         l["props"] = [simple_prop(rng, n, rich) for n in rng.sample(OWN_NAMES, rng.choice([0, 1, 2]))]
         if p_un or p_na:
             restyle(rng, l["secs"], p_un, p_na, OWN_NONASCII)
@@ -306,18 +398,38 @@ def gen_case(rng, tier):
         else:
             l["link"] = "/" + "/".join(tp) if rng.random() < 0.5 else rel_text(lp, tp)
             targets.append(tp)
+            link_targets[len(linkers)] = tp
         if rng.random() < 0.5:
             l["def"] = None
+        if rich is not None and rng.random() < 0.3:
+            # cardinalities of the linking Section that its own children plus the copies exceed
+            # (a cardinality is validated, never enforced: the resolution must not be refused)
+            l[rng.choice(["scard", "pcard"])] = rng.choice(TIGHT)
         linkers.append(lp)
         # sub-trees changed above: recompute the candidate paths
         paths = [q for q in all_paths(doc)]
         rng.shuffle(paths)
     if not linkers:
         return None
+    if any_clash:
+        # resolving one linking Section twice in a row is not the same as resolving it once when it
+        # has own children equal to the target's (the second resolution takes them out and appends
+        # copies): `sec1+doc` is Document.finalize() for linking Sections without shared names only
+        ops = [o.replace("finalize:sec1+doc", "finalize:sec-rev") for o in ops]
+    if rng.random() < 0.15:
+        ops = gen_edits(rng, ops, doc, linkers, link_targets, clashing)
     case = {"stream": "cycle", "doc": doc, "files": files, "ops": ops,
             "linkers": [list(p) for p in linkers], "clash": any_clash}
     if rng.random() < 0.1:
         case["twin"] = True
+        if rng.random() < 0.4:
+            # both documents go through the history step by step (both are merged with the one
+            # cached copy of an included Section at the same time)
+            case["twin"] = "lockstep"
+    if rng.random() < 0.12:
+        # construction order: every Section and Property is created without a parent (a linking
+        # Section with its link / include already set) and appended when it is complete
+        case["attach"] = "late"
     if rich is not None and rng.random() < 0.6:
         # attributes of the Document itself ("any other part of the document")
         case["docattrs"] = {"author": rng.choice([None, "A. Author"]), "version": rng.choice([None, "1.2"]),
@@ -412,8 +524,12 @@ def build_doc(secs, attrs=None):
     return doc
 
 
-def build_prop(spec, parent):
+def build_prop(spec, parent, late=False):
     import odml
+    if late:
+        prop = build_prop(spec, None)
+        parent.append(prop)
+        return prop
     vals = [m.from_tag(t) for t in spec["values"]]
     unnamed = spec.get("unnamed")
     return odml.Property(name=None if unnamed else spec["name"], oid=spec["name"] if unnamed else None,
@@ -424,7 +540,8 @@ def build_prop(spec, parent):
                          val_cardinality=card_in(spec.get("vcard")), parent=parent)
 
 
-def build_tree(spec, parent, urls=None):
+def build_tree(spec, parent, urls=None, late=False):
+    """late: created without a parent (link / include already set), filled, appended last."""
     import odml
     incl = spec.get("incl")
     if incl and urls is not None and incl.startswith("FILE:"):
@@ -433,14 +550,17 @@ def build_tree(spec, parent, urls=None):
     unnamed = spec.get("unnamed")     # created without a name: the library names it after its id
     sec = odml.Section(name=None if unnamed else spec["name"], oid=spec["name"] if unnamed else None,
                        type=spec["type"], definition=spec["def"],
-                       reference=spec["ref"], parent=parent, link=spec.get("link"), include=incl,
+                       reference=spec["ref"], parent=None if late else parent,
+                       link=spec.get("link"), include=incl,
                        repository=repo_url() if spec.get("repo") else None,
                        sec_cardinality=card_in(spec.get("scard")),
                        prop_cardinality=card_in(spec.get("pcard")))
     for p in spec["props"]:
-        build_prop(p, sec)
+        build_prop(p, sec, late)
     for c in spec["secs"]:
-        build_tree(c, sec, urls)
+        build_tree(c, sec, urls, late)
+    if late:
+        parent.append(sec)
     return sec
 
 
@@ -545,6 +665,111 @@ def reload_doc(doc, op, tmp):
     return ODMLReader(fmt, show_warnings=False).from_string(text)
 
 
+def section_at(doc, path):
+    """The Section at a position given by names (public child lists only)."""
+    cur = doc
+    for n in path:
+        cur = cur.sections[n]
+    return cur
+
+
+def refused_calls(doc):
+    """Calls the library has to refuse, on every linking Section: the other kind of reference
+    (link and include exclude each other), a link path that does not resolve. Not judged."""
+    for sec in linking_sections(doc):
+        tries = [("include", "file:///nowhere/zz9.xml#/zz9")] if sec.link is not None else \
+            [("link", "/zz9")]
+        if sec.link is not None:
+            tries += [("link", "/zz9/none"), ("link", "../zz9")]
+        for attr, val in tries:
+            try:
+                setattr(sec, attr, val)
+            except OpTimeout:
+                raise
+            except Exception:
+                pass
+
+
+def apply_edit(doc, op, idx, case):
+    """`edit:<what>:<k>`: change the (cleaned) document around linking Section k; see gen_edits."""
+    import odml
+    _, what, k = op.split(":")
+    linker = section_at(doc, case["linkers"][int(k)])
+    if what == "own+":
+        sec = odml.Section(name="w%d" % idx, type="wt", parent=linker)
+        odml.Property(name="wp", values=[idx], parent=sec)
+        return
+    if what == "own-":
+        if len(linker.sections):
+            linker.remove(linker.sections[0])
+        elif len(linker.properties):
+            linker.remove(linker.properties[0])
+        return
+    target = linker.get_section_by_path(linker.link)
+    if what == "t+sec":
+        sec = odml.Section(name="e%d" % idx, type="et", definition="added later", parent=target)
+        odml.Property(name="ep", values=["v%d" % idx], parent=sec)
+    elif what == "t+prop":
+        odml.Property(name="eq%d" % idx, values=[idx, idx + 1], parent=target)
+    elif what == "t-sec":
+        if len(target.sections):
+            target.remove(target.sections[0])
+    elif what == "t-prop":
+        if len(target.properties):
+            target.remove(target.properties[0])
+    elif what == "t~":
+        if len(target.properties):
+            target.properties[0].unit = "kV"
+        if len(target.sections):
+            target.sections[0].definition = "edited"
+    else:
+        raise ValueError("unknown edit %r" % (op,))
+
+
+def apply_op(doc, op, idx, case, tmp):
+    """One step of a history on the real library; returns the document to go on with."""
+    kind = kind_of(op)
+    var = op.partition(":")[2]
+    if kind == "finalize":
+        if var == "":
+            doc.finalize()
+        elif var in ("sec", "sec-rev"):
+            secs = linking_sections(doc)
+            for sec in (reversed(secs) if var == "sec-rev" else secs):
+                sec.merge()
+        elif var == "sec1+doc":
+            linking_sections(doc)[0].merge()
+            doc.finalize()
+        else:
+            raise ValueError("unknown op %r" % (op,))
+    elif kind == "clean":
+        if var == "":
+            doc.clean()
+        elif var in ("sec", "sec-rev"):
+            secs = linking_sections(doc)
+            for sec in (reversed(secs) if var == "sec-rev" else secs):
+                sec.clean()
+        elif var == "sec1+doc":
+            linking_sections(doc)[0].clean()
+            doc.clean()
+        elif var == "top":
+            for sec in list(doc.sections):
+                sec.clean()
+        else:
+            raise ValueError("unknown op %r" % (op,))
+    elif kind == "reload":
+        doc = reload_doc(doc, op, tmp)
+    elif kind == "copy":
+        doc = doc.clone(keep_id=(var == "clone-keepid"))
+    elif kind == "noop":
+        refused_calls(doc)
+    elif kind == "edit":
+        apply_edit(doc, op, idx, case)
+    else:
+        raise ValueError("unknown op %r" % (op,))
+    return doc
+
+
 # ----------------------------------------------------------------------------- oracle helpers
 def strip_marks(s, deep=True):
     """A snapshot without the is_merged flags (a copy differs from its original in that)."""
@@ -569,7 +794,11 @@ def parse_canon(text):
 
 def target_of(linker, doc, files):
     if linker["link"] is not None:
+        if not isinstance(linker["link"], str):
+            return None                 # a link that does not resolve (canon_link's marker)
         return lookup(doc, parse_canon(linker["link"]))
+    if not isinstance(linker["incl"], str):
+        return None                     # no reference at all / an include that does not resolve
     key, _, path = linker["incl"].partition("#")
     return lookup(files[key], parse_canon(path))
 
@@ -614,7 +843,8 @@ class C12(fw.Check):
         "documents inside the property's quantifier (Link.inRegime, evaluated by the driver on every case)",
         "value universe and attribute assumptions of C13",
     ]
-    rule = ("documents of 2-4 top-level Section trees (depth <= 3) with 1-3 linking Sections "
+    rule = ("documents of 2-4 top-level Section trees (depth <= 3, now and then 4) with 1-3 (now and "
+            "then 4-6) linking Sections "
             "(links absolute or relative, includes url / url#/abs / url#rel served from generated "
             "file: documents), pairwise disjoint and disjoint from their targets, two linking "
             "Sections may share a target; linking Sections "
@@ -628,7 +858,16 @@ class C12(fw.Check):
             "undo, clean twice, three cycles, load before the first finalize), save+load as XML / "
             "JSON / YAML text and files, Document level and Section level entry points, a second "
             "document of the same description in the same process; the included documents are "
-            "looked at again after the history. "
+            "looked at again after the history. Round 3: the cleaned document edited by the harness "
+            "between two cycles (children added to / changed in / taken out of a link target, own "
+            "children added to / taken out of a linking Section; the model is asked again from the "
+            "edited snapshot), a clone of the Document (new / kept ids) in between, refused setter "
+            "calls in any state, further call patterns (linking Sections in reverse order, one of "
+            "them first and then the Document, top-level Sections one by one), Sections created "
+            "without a parent and appended when complete, cardinalities of a linking Section that "
+            "the copies exceed, own children with sub-trees of depth 2-3, two documents of one "
+            "description in lockstep. A linking Section below another linking Section is read as a "
+            "nested link (outside the quantifier) and not generated. "
             "Non-trivial = at least one target has children; distinct = distinct canonical JSON.")
 
     def generate(self, tier, rng):
@@ -653,10 +892,12 @@ class C12(fw.Check):
             written.append(path)
             urls[key] = "file://" + path
             keys[urls[key]] = key
+        late = case.get("attach") == "late"
+
         def fresh():
             d = build_doc([], case.get("docattrs"))
             for spec in case["doc"]:
-                build_tree(spec, d, urls)
+                build_tree(spec, d, urls, late)
             return d
         doc = fresh()
         # a second document from the same description, built now and used after the first one in
@@ -672,43 +913,54 @@ class C12(fw.Check):
             return out
         files = snap_files()
 
-        def run(doc):
-            states = [{"op": "initial", "outcome": "ok", "doc": snap_doc(doc, keys), "attrs": snap_attrs(doc)}]
-            for op in case["ops"]:
+        class Run(object):
+            """One document going through the history, one step at a time."""
+
+            def __init__(self, doc):
+                self.doc = doc
+                self.dead = False
+                self.states = [{"op": "initial", "outcome": "ok", "doc": snap_doc(doc, keys),
+                                "attrs": snap_attrs(doc)}]
+
+            def step(self, idx, op):
+                if self.dead:
+                    return
                 outc = "ok"
                 try:
                     with time_limit(OP_SECONDS):
-                        if op == "finalize":
-                            doc.finalize()
-                        elif op == "clean":
-                            doc.clean()
-                        elif op == "finalize:sec":
-                            for sec in linking_sections(doc):
-                                sec.merge()
-                        elif op == "clean:sec":
-                            for sec in linking_sections(doc):
-                                sec.clean()
-                        elif op.startswith("reload"):
-                            doc = reload_doc(doc, op, tmp)
-                        else:
-                            raise ValueError("unknown op %r" % (op,))
+                        self.doc = apply_op(self.doc, op, idx, case, tmp)
                 except Exception as exc:
                     outc = fw.exc_name(exc)
                 if outc == "OpTimeout":
                     # a resolution that does not terminate (e.g. a link that came to designate an
                     # ancestor): do not walk the (possibly huge) document, report and stop
-                    states.append({"op": op, "outcome": outc, "doc": []})
-                    break
+                    self.states.append({"op": op, "outcome": outc, "doc": []})
+                    self.dead = True
+                    return
                 try:
                     with time_limit(OP_SECONDS):
-                        states.append({"op": op, "outcome": outc, "doc": snap_doc(doc, keys),
-                                       "attrs": snap_attrs(doc)})
+                        self.states.append({"op": op, "outcome": outc, "doc": snap_doc(self.doc, keys),
+                                            "attrs": snap_attrs(self.doc)})
                 except OpTimeout:
-                    states.append({"op": op, "outcome": "OpTimeout", "doc": []})
+                    self.states.append({"op": op, "outcome": "OpTimeout", "doc": []})
+                    self.dead = True
+
+        first = Run(doc)
+        second = Run(twin) if twin is not None else None
+        if second is not None and case.get("twin") == "lockstep":
+            for idx, op in enumerate(case["ops"]):
+                first.step(idx, op)
+                if first.dead:
                     break
-            return states
-        states = run(doc)
-        twin_states = run(twin) if twin is not None and states[-1]["outcome"] != "OpTimeout" else None
+                second.step(idx, op)
+        else:
+            for idx, op in enumerate(case["ops"]):
+                first.step(idx, op)
+            if second is not None and not first.dead:
+                for idx, op in enumerate(case["ops"]):
+                    second.step(idx, op)
+        states = first.states
+        twin_states = second.states if second is not None and not first.dead else None
         # the included Sections live in the cached terminology documents: look at them again
         files_after = None
         try:
@@ -730,41 +982,71 @@ class C12(fw.Check):
     @staticmethod
     def model_ops(ops):
         """The model knows finalize / clean / reload (the identity): the Section level entry
-        points and the save/load formats are variants of these on the implementation side."""
-        return [o.split(":")[0] for o in ops]
+        points, the save/load formats, a clone of the Document and refused calls are variants of
+        these on the implementation side."""
+        return [MODEL_KIND[kind_of(o)] for o in ops]
+
+    @staticmethod
+    def segments(states):
+        """The history cut at the edits: [(index of the state a segment starts from, [indexes of
+        its steps])]. The model runs every segment from the observed snapshot at its start."""
+        segs = [(0, [])]
+        for i in range(1, len(states)):
+            if kind_of(states[i]["op"]) == "edit":
+                if states[i]["outcome"] != "ok":
+                    break               # the oracle reports it; nothing to model from here
+                segs.append((i, []))
+            else:
+                segs[-1][1].append(i)
+        return segs
 
     def model_requests(self, case, obs):
-        init = narrow(obs["states"][0]["doc"])
         mfiles = dict((k, None if v is None else narrow(v)) for k, v in obs["files"].items())
-        if not (m.modelable(init) and m.modelable(mfiles)) or \
-                any(v is None for v in mfiles.values()):
+        if not m.modelable(mfiles) or any(v is None for v in mfiles.values()):
             return []
-        return [{"op": "cycle", "doc": init, "files": mfiles, "ops": self.model_ops(case["ops"])}]
+        reqs = []
+        states = obs["states"]
+        for start, steps in self.segments(states):
+            init = narrow(states[start]["doc"])
+            if not m.modelable(init):
+                return []
+            reqs.append({"op": "cycle", "doc": init, "files": mfiles,
+                         "ops": self.model_ops([states[i]["op"] for i in steps])})
+        return reqs
 
     def compare(self, case, obs, answers):
         if not answers:
             return ["initial state outside the modelled universe: %s"
                     % fw.canon(obs["states"][0]["doc"])[:400]]
-        a = answers[0]
+        out = []
+        states = obs["states"]
+        mfiles = dict((k, narrow(v)) for k, v in obs["files"].items())
+        for (start, steps), a in zip(self.segments(states), answers):
+            out += self.compare_segment(case, states, start, steps, a, mfiles)
+            if out:
+                break
+        return out
+
+    def compare_segment(self, case, states, start, steps, a, mfiles):
         out = []
         if not a["regime"]:
-            out.append("generated document outside Link.inRegime")
-        for i, (st, ms) in enumerate(zip(obs["states"][1:], a["states"])):
+            out.append("document outside Link.inRegime (segment starting at step %d)" % start)
+        for i, ms in zip(steps, a["states"]):
+            st = states[i]
             if st["outcome"] == "OpTimeout":
-                out.append("step %d %s did not terminate within %d s" % (i, st["op"], OP_SECONDS))
+                out.append("step %d %s did not terminate within %d s" % (i - 1, st["op"], OP_SECONDS))
                 break
             if (ms["out"] == "ok") != (st["outcome"] == "ok"):
-                out.append("step %d %s: model %s, implementation %s" % (i, st["op"], ms["out"], st["outcome"]))
+                out.append("step %d %s: model %s, implementation %s" % (i - 1, st["op"], ms["out"], st["outcome"]))
                 break
             if ms["doc"] != narrow(st["doc"]):
                 out.append("step %d %s: documents differ: model %s implementation %s"
-                           % (i, st["op"], fw.canon(ms["doc"])[:700], fw.canon(narrow(st["doc"]))[:700]))
+                           % (i - 1, st["op"], fw.canon(ms["doc"])[:700], fw.canon(narrow(st["doc"]))[:700]))
                 break
         linkers = [l["path"] for l in a["linkers"]]
         if sorted(linkers) != sorted(case["linkers"]):
             out.append("linking Sections: model %s, generator %s" % (linkers, case["linkers"]))
-        init = narrow(obs["states"][0]["doc"])
-        mfiles = dict((k, narrow(v)) for k, v in obs["files"].items())
+        init = narrow(states[start]["doc"])
         for info in a["linkers"]:
             l = lookup(init, info["path"])
             t = target_of(l, init, mfiles) if l else None
@@ -816,7 +1098,7 @@ class C12(fw.Check):
             if cur["outcome"] != "ok":
                 out.append("%s raised %s" % (op, cur["outcome"]))
                 break
-            kind = op.split(":")[0]     # finalize:sec / clean:sec / reload:<format> are variants
+            kind = kind_of(op)          # finalize:sec / clean:sec / reload:<format> are variants
             if kind in ("finalize", "clean") and cur.get("attrs") != prev.get("attrs"):
                 out.append("%s: the attributes of the Document itself changed from %s to %s"
                            % (kind, prev.get("attrs"), cur.get("attrs")))
@@ -826,13 +1108,24 @@ class C12(fw.Check):
                 # the state this clean has to restore: the one before the finalize(s) it undoes
                 # (a clean with nothing to undo: the state before it)
                 j = i - 1
-                while j > 0 and states[j]["op"].split(":")[0] in ("finalize", "clean"):
+                # (refused calls in between left the document as it was, see `noop` below)
+                while j > 0 and kind_of(states[j]["op"]) in ("finalize", "clean", "noop"):
                     j -= 1
                 self.check_clean(states[j]["doc"], cur["doc"], lpaths, files, out)
             elif kind == "reload":
                 if cur["doc"] != prev["doc"]:
                     out.append("reload: the saved and re-loaded document differs from the cleaned one")
-                self.check_saved(cur["doc"], states[0]["doc"], lpaths, files, out)
+                # what the linking Sections and their targets looked like before any resolution:
+                # the initial document, or the document as the harness last edited it
+                b = max([0] + [k for k in range(1, i) if kind_of(states[k]["op"]) == "edit"])
+                self.check_saved(cur["doc"], states[b]["doc"], lpaths, files, out)
+            elif kind == "noop":
+                # refused calls are not C12's subject; if one left a trace, what follows is the
+                # history of another document (possibly outside the quantifier): not judged
+                if cur["doc"] != prev["doc"]:
+                    break
+            # kind == "copy" (Document.clone: its faithfulness is C11's subject) and kind == "edit"
+            # (the harness's own change) only set the state the following steps start from
 
     def check_finalize(self, before, after, lpaths, files, out):
         for p in lpaths:
@@ -842,6 +1135,9 @@ class C12(fw.Check):
                 continue
             t = target_of(l0, before, files)
             if t is None:
+                if isinstance(l0["link"], dict) or isinstance(l0["incl"], dict):
+                    out.append("finalize: the reference of linking Section %s designated no Section "
+                               "before this resolution: %s" % (p, l0["link"] or l0["incl"]))
                 continue
             used_s = set(c["name"] for c in l0["secs"])
             used_p = set(q["name"] for q in l0["props"])
@@ -960,6 +1256,12 @@ class C12(fw.Check):
             extra += ":variant-ops"
         if case.get("twin"):
             extra += ":twin"
+        opkinds = set(kind_of(o) for o in case["ops"])
+        for k in ("edit", "copy", "noop"):
+            if k in opkinds:
+                extra += ":" + k
+        if case.get("attach"):
+            extra += ":late"
         return ("cycle:%s:%s:%s%s" % ("+".join(sorted(kinds)), "clash" if case["clash"] else "noclash",
                                       len(case["ops"]), extra), nontrivial)
 
